@@ -56,7 +56,7 @@ def cases(rng, tier):
         raw = "".join(c.lower() if rng.random() < 0.6 else c for c in sq)
         yield Case(["backendq %s %s" % (_hex6(raw), " ".join(o.split(" "))) for o in OPS], {"kind": "backend-object-from-mixed-case"})
     # the same query several times in a row on one object
-    for c in gen.repeated_call_cases(rng, 8 if tier == "quick" else 60, ['fcr', 'ncpr', 'kd'], gen.CLAMP_BAND[:8] if False else ()):
+    for c in gen.repeated_call_cases(rng, 8 if tier == "quick" else 60, ['fcr', 'ncpr', 'kd', 'aafrac'], gen.CLAMP_BAND[:8] if False else ()):
         yield c
     # very long chains (> 1000 residues, lengths that are not round numbers)
     for sq in gen.very_long(rng, tier != "quick"):
@@ -74,6 +74,14 @@ def cases(rng, tier):
             for g_ in ("ncpr", "fcr", "fer", "mnc"):
                 lines.append("q phq %s %s %s%s" % (sq, g_, ph, " @totnorm" if g_ == "fcr" and rng.random() < 0.3 else ""))
         yield Case(lines, {"kind": "getters-with-pH"})
+    # every composition getter after phosphosites were set and the phosphorylation queries were made on the same object
+    for _ in range(12 if tier == "quick" else 120):
+        sq = gen.rand_seq(rng, rng.choice(["idp", "polyampholyte"]), rng.randint(10, 40)) + rng.choice(["S", "T", "Y", "SGT"])
+        sty = [i + 1 for i, c in enumerate(sq) if c in "STY"]
+        scene = ["setphos 0 " + " ".join(map(str, rng.sample(sty, min(len(sty), rng.randint(1, 3))))), "o 0 " + rng.choice(["kappaphos", "phosdist", "phosseq"]), "o 0 kappaphos"]
+        if rng.random() < 0.5:
+            scene.append("clearphos 0")
+        yield Case(["new 0 " + sq] + scene + ["o 0 " + q for q in OPS], {"kind": "after-phosphorylation-queries", "judge_from": 1 + len(scene)})
     # objects built from sequence files (two per block)
     for c in gen.file_cases(rng, 12 if tier == "quick" else 100, ['countPos', 'countNeg', 'fcr', 'ncpr', 'kd', 'mw', 'len']):
         yield c
